@@ -118,6 +118,9 @@ pub struct WalWriter {
     entry_count: usize,
     bytes_written: u64,
     error_handler: Option<Arc<WalErrorHandler>>,
+    /// Set when the rollback of a failed append could not cut the file back: the offset and
+    /// entry count the file has to be truncated to before anything else may be appended.
+    dirty_tail: Option<(u64, usize)>,
 }
 
 impl WalWriter {
@@ -157,6 +160,7 @@ impl WalWriter {
             entry_count: 0,
             bytes_written: 4, // Magic header
             error_handler,
+            dirty_tail: None,
         })
     }
 
@@ -169,6 +173,7 @@ impl WalWriter {
                 let handler = Arc::clone(error_handler);
                 // Clone entry to avoid borrowing issues
                 let entry_clone = entry.clone();
+                self.heal_dirty_tail()?;
                 let stable_offset = self.bytes_written;
                 let stable_entry_count = self.entry_count;
                 handler.write_with_retry(|| {
@@ -198,6 +203,7 @@ impl WalWriter {
         stable_offset: u64,
         stable_entry_count: usize,
     ) -> Result<()> {
+        self.heal_dirty_tail()?;
         match self.append_internal(entry) {
             Ok(()) => Ok(()),
             Err(write_err) => {
@@ -273,8 +279,23 @@ impl WalWriter {
         if truncated {
             self.bytes_written = stable_offset;
             self.entry_count = stable_entry_count;
+            self.dirty_tail = None;
+        } else {
+            self.dirty_tail = Some((stable_offset, stable_entry_count));
         }
         rolled_back
+    }
+
+    /// A failed append whose rollback could not truncate the file leaves its bytes at the
+    /// tail. Nothing may be written behind them (a retry or a later acknowledged frame
+    /// would be unreadable after restart), so the truncate is attempted again first and the
+    /// append is refused for as long as it keeps failing.
+    fn heal_dirty_tail(&mut self) -> Result<()> {
+        if let Some((stable_offset, stable_entry_count)) = self.dirty_tail {
+            self.rollback_to_stable_state(stable_offset, stable_entry_count)
+                .context("WAL tail still holds a failed append that could not be rolled back")?;
+        }
+        Ok(())
     }
 
     fn perform_fsync(&mut self) -> Result<()> {
@@ -311,6 +332,7 @@ impl WalWriter {
             Some(error_handler) => {
                 let handler = Arc::clone(error_handler);
                 let entries_clone = entries.to_vec();
+                self.heal_dirty_tail()?;
                 let stable_offset = self.bytes_written;
                 let stable_entry_count = self.entry_count;
                 handler.write_with_retry(|| {
@@ -331,6 +353,7 @@ impl WalWriter {
         stable_offset: u64,
         stable_entry_count: usize,
     ) -> Result<()> {
+        self.heal_dirty_tail()?;
         match self.append_batch_internal(entries) {
             Ok(()) => Ok(()),
             Err(write_err) => {
